@@ -27,9 +27,13 @@ def parse(text):
         for fn, args in calls:
             a = [x.strip() for x in args.split(',')]
             def num(x):
-                x = re.sub(r'INT64_C\((\d+)\)', r'\1', x)
-                if not re.fullmatch(r'\d+', x): raise TranslateError('non-numeric argument %r in %s' % (x, tn))
-                return int(x)
+                # a C integer constant: optional (U)INT<n>_C(...) wrapper, decimal or hex digits, optional u/l suffixes
+                x = x.strip()
+                m = re.fullmatch(r'U?INT(?:8|16|32|64|MAX)_C\(\s*(.*?)\s*\)', x)
+                if m: x = m.group(1)
+                m = re.fullmatch(r'(0[xX][0-9a-fA-F]+|\d+)[uUlL]*', x)
+                if not m: raise TranslateError('non-numeric argument %r in %s' % (x, tn))
+                return int(m.group(1), 0) if m.group(1).lower().startswith('0x') else int(m.group(1))
             def tref(x):
                 x = x.lstrip('&')
                 if not x.endswith('_verify_table') or x[:-13] not in tidx: raise TranslateError('unknown table verifier ' + x)
